@@ -1615,9 +1615,11 @@ func (f *File) WriteTo(w io.Writer) (written int64, err error) {
 		}
 
 		// Because writes are serialized, this will always be the last successfully read byte.
-		f.offset = packet.off + int64(len(packet.b))
-
 		if len(packet.b) > 0 {
+			// only data moves the offset: the packet that carries the terminating status (EOF or error)
+			// has the offset of the next chunk boundary, not of the end of the data.
+			f.offset = packet.off + int64(len(packet.b))
+
 			n, err := w.Write(packet.b)
 			written += int64(n)
 			if err != nil {
